@@ -41,7 +41,8 @@ MANIFEST = {
              "are not executed. In the main model a reorganisation falls only where the handler waits for the network "
              "/ sleeps; store-call interleavings are explored only for rollBackToHeight vs writeCFHeadersMsg (3-4 "
              "block chain). Panics and honest peers banned without any false answer in "
-             "play are counted in the evidence, not judged (no clause of C03); liveness belongs to C04.",
+             "play are counted in the evidence, not judged (no clause of C03); liveness belongs to C04."
+             " Free-running slice (vlib/families/cfsync_free.py): the REAL, unmodified cfHandler goroutine runs in a testing/synctest bubble (virtual clock) against scripted peers, re-orgs and header batches at seeded moments; every recorded execution is judged by the same CFSyncProps clauses and validated line by line against CFSync.tla (CFTrace.tla), so the loop's own glue (tip snapshots, cached checkpoint lists, re-checks after a dispute) is executed, which the step-by-step replay re-implements in the driver.",
         design="4 C03", technique="TLA+ spec + TLC exhaustive + spec-to-code replay of every transition with gates + "
                                   "TLC-judged observed traces"),
 }
